@@ -28,6 +28,8 @@ def kernel_family(rep, fb, tier, kre, fre, floors=None):
     cs.rule_errflow(rep, fb, sites=sites, floor=floors.get("sites", 1))
     cs.rule_role(rep, fb, sites=sites, floor=floors.get("role", 1))
     cs.rule_fresh(rep, fb, sites=sites, floor=floors.get("fresh", 1))
+    from ..rules import kbound
+    kbound.rule_kbound(rep, fb, select_site=lambda s: bool(fpat.search(s.func["name"] or "") or kpat.search(s.name)), floor=0)
     if tier == "thorough" and sites_i:
         # re-run the call-site rules on every template instantiation (resolved callees, implicit conversions)
         for fn, nm in ((cs.rule_errflow, "sites"), (cs.rule_role, "role"), (cs.rule_fresh, "fresh")):
